@@ -5,14 +5,18 @@ Driver for C07: histories over 3 raw_vector registers and 2 buffer registers sha
 
 ```
 reset                                  start of a history: fresh registers
+dump                                   all registers (contents, sizes) and the ledger
+ctor r adefault|acount n x|arange KIND LIST|ail LIST, bactor b n      the overloads taking the allocator explicitly
 end                                    end of a history: all destructors run, ledger reported
-ctor r default | count n x | range fwd|inp LIST | il LIST | move s | buf b
-push r SRC | pop r | ins1 r pos SRC | insn r pos n SRC | insr r pos fwd|inp LIST
+ctor r default | count n x | range KIND LIST | il LIST | move s | buf b        KIND = fwd|ptr|fl|bidi|inp
+push r SRC | pop r | ins1 r pos SRC | insn r pos n SRC | insr r pos KIND LIST | insr r pos self a b
 era1 r pos | erar r l h | resize r n SRC | reserve r n | shrink r | clear r
-swap r s | massign r s | cmp r s | obs r
+set r idx|it|data i x | set r front|back 0 x       store through the returned reference
+swap r s | massign r s | cmp r s | obs r           (r = s allowed)
 bctor b n | bresize b n | bfill b LIST | bappend b size LIST | bappendopt b size none|LIST
-bread b size LIST | bmovector b c | bswap b c | bmassign b c
+bread b size LIST | breadopt b size none|LIST | bmovector b c | bswap b c | bmassign b c | bobs b
 readchars count LIST                   (stateless) fcppt::io::read_chars
+dynarr n LIST                          (stateless) dynamic_array<int>(n): store LIST through data(), read back, destroy
 ```
 SRC = `v<int>` (a value) or `s<i>` (a reference to element i of the same vector); LIST = `a,b,c` or `-`.
 An operation whose precondition does not hold for the current state prints `invalid` and is not executed
@@ -39,21 +43,39 @@ def parseReg (n : Nat) (t : String) : Option Nat :=
   | some r => if r < n then some r else none
   | none => none
 
+/-- iterator kind of a range argument: `fwd` (std::vector iterator), `ptr` (pointer), `fl` (std::forward_list, forward only),
+`bidi` (std::list) all model `forward_iterator_tag`; `inp` is a strictly single-pass input iterator -/
 def parseFwd (t : String) : Option Bool :=
-  if t = "fwd" then some true else if t = "inp" then some false else none
+  if t = "fwd" || t = "ptr" || t = "fl" || t = "bidi" then some true else if t = "inp" then some false else none
+
+/-- `idx`/`it`/`data`: `v[i]`, `*(begin() + i)`, `data()[i]` (one code path); `front`/`back` take the index 0 -/
+def parseAcc (how : String) (i : Nat) : Option Acc :=
+  if how = "idx" || how = "it" || how = "data" then some (.index i)
+  else if how = "front" && i = 0 then some .front
+  else if how = "back" && i = 0 then some .back
+  else none
 
 inductive Cmd where
   | reset
   | endHist
+  | dump
   | op (o : Op)
   | cmp (r s : Nat)
   | obs (r : Nat)
+  | bobs (b : Nat)
+  | dynArr (n : Nat) (xs : List Int)
   | readChars (count : Nat) (xs : List Int)
 
 def parseCmd (toks : List String) : Option Cmd :=
   match toks with
   | ["reset"] => some .reset
   | ["end"] => some .endHist
+  | ["dump"] => some .dump
+  | ["ctor", r, "adefault"] => do let r ← parseReg NV r; pure (.op (.ctor r .dflt))
+  | ["ctor", r, "acount", n, x] => do let r ← parseReg NV r; let n ← n.toNat?; let x ← x.toInt?; pure (.op (.ctor r (.count n x)))
+  | ["ctor", r, "arange", f, l] => do let r ← parseReg NV r; let f ← parseFwd f; let l ← parseIntList l; pure (.op (.ctor r (.range l f)))
+  | ["ctor", r, "ail", l] => do let r ← parseReg NV r; let l ← parseIntList l; pure (.op (.ctor r (.il l)))
+  | ["bactor", b, n] => do let b ← parseReg NB b; let n ← n.toNat?; pure (.op (.bctor b n))
   | ["ctor", r, "default"] => do let r ← parseReg NV r; pure (.op (.ctor r .dflt))
   | ["ctor", r, "count", n, x] => do let r ← parseReg NV r; let n ← n.toNat?; let x ← x.toInt?; pure (.op (.ctor r (.count n x)))
   | ["ctor", r, "range", f, l] => do let r ← parseReg NV r; let f ← parseFwd f; let l ← parseIntList l; pure (.op (.ctor r (.range l f)))
@@ -64,6 +86,8 @@ def parseCmd (toks : List String) : Option Cmd :=
   | ["pop", r] => do let r ← parseReg NV r; pure (.op (.v r .popBack))
   | ["ins1", r, p, s] => do let r ← parseReg NV r; let p ← p.toNat?; let s ← parseSrc s; pure (.op (.v r (.insert1 p s)))
   | ["insn", r, p, n, s] => do let r ← parseReg NV r; let p ← p.toNat?; let n ← n.toNat?; let s ← parseSrc s; pure (.op (.v r (.insertN p n s)))
+  | ["insr", r, p, "self", a, b] => do
+    let r ← parseReg NV r; let p ← p.toNat?; let a ← a.toNat?; let b ← b.toNat?; pure (.op (.v r (.insertSelf p a b)))
   | ["insr", r, p, f, l] => do let r ← parseReg NV r; let p ← p.toNat?; let f ← parseFwd f; let l ← parseIntList l; pure (.op (.v r (.insertRange p l f)))
   | ["era1", r, p] => do let r ← parseReg NV r; let p ← p.toNat?; pure (.op (.v r (.erase1 p)))
   | ["erar", r, a, b] => do let r ← parseReg NV r; let a ← a.toNat?; let b ← b.toNat?; pure (.op (.v r (.eraseR a b)))
@@ -71,6 +95,7 @@ def parseCmd (toks : List String) : Option Cmd :=
   | ["reserve", r, n] => do let r ← parseReg NV r; let n ← n.toNat?; pure (.op (.v r (.reserve n)))
   | ["shrink", r] => do let r ← parseReg NV r; pure (.op (.v r .shrink))
   | ["clear", r] => do let r ← parseReg NV r; pure (.op (.v r .clear))
+  | ["set", r, how, i, x] => do let r ← parseReg NV r; let i ← i.toNat?; let a ← parseAcc how i; let x ← x.toInt?; pure (.op (.v r (.assign a x)))
   | ["swap", r, s] => do let r ← parseReg NV r; let s ← parseReg NV s; pure (.op (.swap r s))
   | ["massign", r, s] => do let r ← parseReg NV r; let s ← parseReg NV s; pure (.op (.moveAssign r s))
   | ["cmp", r, s] => do let r ← parseReg NV r; let s ← parseReg NV s; pure (.cmp r s)
@@ -84,6 +109,12 @@ def parseCmd (toks : List String) : Option Cmd :=
     if l = "none" then pure (.op (.b b (.appendOpt n none)))
     else do let l ← parseIntList l; pure (.op (.b b (.appendOpt n (some l))))
   | ["bread", b, n, l] => do let b ← parseReg NB b; let n ← n.toNat?; let l ← parseIntList l; pure (.op (.bread b n l))
+  | ["breadopt", b, n, l] => do
+    let b ← parseReg NB b; let n ← n.toNat?
+    if l = "none" then pure (.op (.breadOpt b n none))
+    else do let l ← parseIntList l; pure (.op (.breadOpt b n (some l)))
+  | ["bobs", b] => do let b ← parseReg NB b; pure (.bobs b)
+  | ["dynarr", n, l] => do let n ← n.toNat?; let l ← parseIntList l; pure (.dynArr n l)
   | ["bmovector", b, c] => do let b ← parseReg NB b; let c ← parseReg NB c; pure (.op (.bctorMove b c))
   | ["bswap", b, c] => do let b ← parseReg NB b; let c ← parseReg NB c; pure (.op (.bswap b c))
   | ["bmassign", b, c] => do let b ← parseReg NB b; let c ← parseReg NB c; pure (.op (.bmoveAssign b c))
@@ -104,7 +135,7 @@ def showRet : Option Nat → String
   | none => "ret=-"
   | some n => s!"ret={n}"
 
-def tail (h : Heap) : String := s!"live={h.liveCount} std=ok alloc=ok"
+def tail (h : Heap) (std : String := "ok") : String := s!"live={h.liveCount} std={std} alloc=ok"
 
 /-- which registers an operation touches (printed after it) -/
 def touched : Op → List Nat × List Nat
@@ -116,6 +147,7 @@ def touched : Op → List Nat × List Nat
   | .moveAssign r s => ([r, s], [])
   | .bctor b _ => ([], [b])
   | .bread b _ _ => ([], [b])
+  | .breadOpt b _ _ => ([], [b])
   | .b k _ => ([], [k])
   | .bctorMove b c => ([], [b, c])
   | .bswap b c => ([], [b, c])
@@ -127,9 +159,40 @@ def reok (old new : RV) : VOp → String
   | .reserve n => b01 ((old.base != new.base) == decide (n > old.cap))
   | _ => b01 ((old.base != new.base) == decide (new.last > old.cap))
 
+/-- capacity facts that do not depend on the growth policy: never shrinks (except `shrink_to_fit`, which makes it equal
+to the size); `reserve(n)` makes it at least `n` -/
+def cpok (old new : RV) : VOp → String
+  | .shrink => b01 (new.cap == new.last)
+  | .reserve n => b01 (decide (old.cap ≤ new.cap ∧ n ≤ new.cap))
+  | _ => b01 (decide (old.cap ≤ new.cap))
+
+/-- geometric growth: a capacity that changes at least doubles -/
+def geo (old new : RV) : VOp → String
+  | .shrink => "-"
+  | _ => b01 (new.cap == old.cap || decide (2 * old.cap ≤ new.cap))
+
+/-- `insert(pos, begin()+a, begin()+b)` outside the specification (the range does not lie in front of `pos`): the iterators are
+still valid, the model says what the code does (it depends on the capacity); the specification state adopts the result -/
+def runNoSpec (st : St) (sst : Spec.SSt) (r pos a b : Nat) : St × Spec.SSt × String :=
+  let l := sst.vec r
+  if ¬ (a ≤ b ∧ b ≤ l.length ∧ pos ≤ l.length) then (st, sst, "invalid") else
+  let vo := VOp.insertSelf pos a b
+  match step g st (.v r vo) with
+  | .error _ => (st, sst, "invalid")      -- source and destination of the uninitialized_copy overlap
+  | .ok (st', ret) =>
+    match toList st'.heap (st'.vec r) with
+    | .error f => (st, sst, "fault:" ++ f.name)
+    | .ok l' =>
+      (st', ⟨upd sst.vec r l', sst.buf⟩,
+        showRet ret ++ " " ++ showVec st'.heap r (st'.vec r) ++ " reok=" ++ reok (st.vec r) (st'.vec r) vo ++
+          " cpok=" ++ cpok (st.vec r) (st'.vec r) vo ++ " geo=" ++ geo (st.vec r) (st'.vec r) vo ++ " " ++ tail st'.heap "na")
+
 def runOp (st : St) (sst : Spec.SSt) (o : Op) : St × Spec.SSt × String :=
   match Spec.sstep sst o with
-  | none => (st, sst, "invalid")
+  | none =>
+    match o with
+    | .v r (.insertSelf pos a b) => runNoSpec st sst r pos a b
+    | _ => (st, sst, "invalid")
   | some (sst', sret) =>
     match step g st o with
     | .error f => (st, sst, "fault:" ++ f.name)
@@ -137,7 +200,9 @@ def runOp (st : St) (sst : Spec.SSt) (o : Op) : St × Spec.SSt × String :=
       let (vs, bs) := touched o
       let parts := vs.map (fun r => showVec st'.heap r (st'.vec r)) ++ bs.map (fun k => showBuf st'.heap k (st'.buf k))
       let re := match o with
-        | .v r vo => " reok=" ++ reok (st.vec r) (st'.vec r) vo
+        | .v r vo => " reok=" ++ reok (st.vec r) (st'.vec r) vo ++ " cpok=" ++ cpok (st.vec r) (st'.vec r) vo ++
+            " geo=" ++ geo (st.vec r) (st'.vec r) vo
+        | .b k _ => " mv=" ++ b01 ((st.buf k).base != (st'.buf k).base)
         | _ => ""
       -- the specification's answer rides along: `spec=ok` iff model and List specification agree on everything printed
       let specOk :=
@@ -150,18 +215,35 @@ def runOp (st : St) (sst : Spec.SSt) (o : Op) : St × Spec.SSt × String :=
 
 def cmpLine (st : St) (r s : Nat) : String :=
   let a := st.vec r; let b := st.vec s
-  match equalV st.heap a b, lessV st.heap a b, lessV st.heap b a with
-  | .ok e, .ok lt, .ok gt => s!"eq={b01 e} ne={b01 (!e)} lt={b01 lt} gt={b01 gt} le={b01 (!gt)} ge={b01 (!lt)}"
-  | _, _, _ => "fault"
+  match equalV st.heap a b, neV st.heap a b, lessV st.heap a b, gtV st.heap a b, leV st.heap a b, geV st.heap a b with
+  | .ok e, .ok ne, .ok lt, .ok gt, .ok le, .ok ge => s!"eq={b01 e} ne={b01 ne} lt={b01 lt} gt={b01 gt} le={b01 le} ge={b01 ge}"
+  | _, _, _, _, _, _ => "fault"
 
+def mapM' {α β : Type} (f : α → M β) : List α → M (List β)
+  | [] => pure []
+  | x :: xs => do let y ← f x; let ys ← mapM' f xs; pure (y :: ys)
+
+/-- every element through `operator[]`, `front()`, `back()` (the accessors of the model, not `toList`) -/
 def obsLine (st : St) (r : Nat) : String :=
   let v := st.vec r
-  match toList st.heap v with
+  let showAcc (a : Acc) : String :=
+    if v.last == 0 then "-" else match readRef st.heap v a with | .ok x => toString x | .error f => "fault:" ++ f.name
+  match mapM' (fun i => readRef st.heap v (.index i)) (List.range v.last) with
   | .error f => "fault:" ++ f.name
   | .ok l =>
-    let fr := match l.head? with | some x => toString x | none => "-"
-    let bk := match l.getLast? with | some x => toString x | none => "-"
-    s!"empty={b01 (v.last == 0)} size={v.last} dist={v.last} front={fr} back={bk} idx={showList l}"
+    s!"empty={b01 (v.last == 0)} size={v.last} dist={v.last} front={showAcc .front} back={showAcc .back} idx={showList l} it=1 al=1"
+
+def bobsLine (st : St) (k : Nat) : String :=
+  let b := st.buf k
+  match mapM' (fun i => Buf.index st.heap b i) (List.range b.readSize) with
+  | .error f => "fault:" ++ f.name
+  | .ok l => s!"size={b.readSize} ws={b.writeSize} dist={b.readEnd} idx={showList l} ptr=1"
+
+def dynArrLine (n : Nat) (xs : List Int) : String :=
+  if xs.length > n then "invalid" else
+  match dynRoundTrip Heap.empty n xs with
+  | .error f => "fault:" ++ f.name
+  | .ok (h, size, dist, l) => s!"size={size} dist={dist} vals={showList l} live={h.liveCount} alloc=ok"
 
 def readCharsLine (count : Nat) (xs : List Int) : String :=
   match readChars g Heap.empty xs count with
@@ -183,7 +265,12 @@ def handle (s : St × Spec.SSt) (toks : List String) : (St × Spec.SSt) × Strin
     | .error f => ((St.init, Spec.SSt.init), "end fault:" ++ f.name)
   | some (.op o) => let (st', sst', line) := runOp s.1 s.2 o; ((st', sst'), line)
   | some (.cmp r t) => (s, cmpLine s.1 r t)
+  | some .dump =>
+    (s, " ".intercalate ((List.range NV).map (fun r => showVec s.1.heap r (s.1.vec r)) ++
+          (List.range NB).map (fun k => showBuf s.1.heap k (s.1.buf k))) ++ s!" live={s.1.heap.liveCount} alloc=ok")
   | some (.obs r) => (s, obsLine s.1 r)
+  | some (.bobs b) => (s, bobsLine s.1 b)
+  | some (.dynArr n xs) => (s, dynArrLine n xs)
   | some (.readChars n xs) => (s, readCharsLine n xs)
 
 def main : IO Unit := Proto.runState (St.init, Spec.SSt.init) handle
